@@ -1,6 +1,7 @@
 (* C34 — Accepted output is flushed and every dropped message is reported.
    Statements only; proofs are [exact lemma] or vm_compute witnesses. *)
 From MV Require Import Base.Val Session.Pkt IO.WriteBuf IO.WriteBufProofs.
+From MV Require Conc.WriteQueue Conc.WriteQueueProofs.
 Open Scope N_scope.
 
 (* [wrun thr evs] is the state of one connection's write path after an arbitrary sequence of
@@ -45,7 +46,28 @@ Example C34_nonvacuous :
   written (wrun 64 evs) = [1; 2; 3; 4; 6] /\ reported (wrun 64 evs) = [1; 2; 3; 4; 6] /\ dropped (wrun 64 evs) = [5].
 Proof. vm_compute. repeat split. Qed.
 
+
+(* Schedules: the write loop, the connection handlers and the publishers interleave arbitrarily
+   (Conc/WriteQueue.v: the queue-empty test is made inside cl.Lock(), the write loop dequeues
+   outside it).  For EVERY schedule, once nothing is left to do nothing is left in the write buffer.
+   Only successful writes are modelled here; the failing-write paths are C34_flushed's business. *)
+Theorem C34_flushed_all_schedules :
+  forall (q : list bytes) (handlers : list (list bytes)) (sched : list WriteQueue.action),
+  let s := WriteQueue.run false sched (WriteQueue.init q handlers) in
+  WriteQueue.finished s -> WriteQueue.buf s = [].
+Proof. exact WriteQueueProofs.flushed_when_finished. Qed.
+
+(* what the lock placement buys: with the queue sampled before the lock the statement is false *)
+Example C34_stale_sample_refuted :
+  let s := WriteQueue.run true
+             [WriteQueue.AStep 1 false; WriteQueue.AStep 0 false; WriteQueue.AStep 0 false; WriteQueue.AStep 0 false;
+              WriteQueue.AStep 0 false; WriteQueue.AStep 1 false; WriteQueue.AStep 1 false; WriteQueue.AStep 1 false]
+             (WriteQueue.init [[7%N]] [[[8%N]]]) in
+  WriteQueue.finished s /\ WriteQueue.buf s = [8%N].
+Proof. vm_compute. repeat split; repeat constructor. Qed.
+
 Print Assumptions C34_flushed.
 Print Assumptions C34_drops_reported.
 Print Assumptions C34_refusals_reported.
 Print Assumptions C34_write_calls_shape.
+Print Assumptions C34_flushed_all_schedules.
